@@ -24,6 +24,7 @@ fn check(id: &str, tier: Tier) -> i32 {
         "C01" => props::grouping::check(Which::C01, tier),
         "C02" => props::c02::check(tier),
         "C03" => props::grouping::check(Which::C03, tier),
+        "C05" => props::c05::check(tier),
         "C06" => props::c06::check(tier),
         "C07" => props::c07::check(tier),
         "C08" => props::c08::check(tier),
@@ -47,6 +48,7 @@ fn replay(id: &str, f: &Path) -> i32 {
         "C01" => props::grouping::replay(Which::C01, f),
         "C02" => props::c02::replay(f),
         "C03" => props::grouping::replay(Which::C03, f),
+        "C05" => props::c05::replay(f),
         "C06" => props::c06::replay(f),
         "C07" => props::c07::replay(f),
         "C08" => props::c08::replay(f),
